@@ -210,11 +210,11 @@ def contains(I, container, x):
         _used("str.__contains__")
         return z3.Contains(sym_str(I, container), sym_str(I, x))
     if isinstance(container, MSet):
-        return V.vl_contains(container.elems, lower(x))
+        return V.vcontains(container.elems, lower(x))
     if isinstance(container, SV) and is_set_term(I, container.t):
-        return V.vl_contains(V.set_elems(container.t), lower(x))
+        return V.vcontains(V.set_elems(container.t), lower(x))
     if isinstance(container, MList):
-        return V.vl_contains(V.vl(container.t), lower(x))
+        return V.vcontains(V.vl(container.t), lower(x))
     if isinstance(container, MDict):
         return V.dhas(V.vd(container.t), lower(x))
     if isinstance(container, SV):
@@ -223,17 +223,17 @@ def contains(I, container, x):
             _used("dict.__contains__")
             return V.dhas(V.vd(t), lower(x))
         if entailed(I, V.is_VList(t)):
-            return V.vl_contains(V.vl(t), lower(x))
+            return V.vcontains(V.vl(t), lower(x))
         if entailed(I, V.is_VTuple(t)):
-            return V.vl_contains(V.vt(t), lower(x))
+            return V.vcontains(V.vt(t), lower(x))
         ok = z3.Or(V.is_VDict(t), V.is_VList(t), V.is_VStr(t), V.is_VTuple(t))
         I.p.oblige("no-raise@in", ok, "no-raise", detail="TypeError: argument of this type is not iterable")
         if I.p.branch(V.is_VDict(t), "in:dict"):
             return V.dhas(V.vd(t), lower(x))
         if I.p.branch(V.is_VList(t), "in:list"):
-            return V.vl_contains(V.vl(t), lower(x))
+            return V.vcontains(V.vl(t), lower(x))
         if I.p.branch(V.is_VTuple(t), "in:tuple"):
-            return V.vl_contains(V.vt(t), lower(x))
+            return V.vcontains(V.vt(t), lower(x))
         # `x in str` requires x to be a str
         I.p.oblige("no-raise@in.str", V.is_VStr(lower(x)), "no-raise", detail="TypeError: 'in <string>' requires string")
         return z3.Contains(V.vs(t), V.vs(lower(x)))
@@ -680,7 +680,7 @@ def elem_facts(I, xs, elem):
     ent = table.get(z3.simplify(xs).get_id()) or table.get(key)
     if ent is not None:
         facts.append(ent(elem))
-    facts.append(V.vl_contains(xs, elem))
+    facts.append(V.vcontains(xs, elem))
     return facts
 
 
@@ -847,6 +847,59 @@ def symbolic_for(I, st, it, env, module):
     return True
 
 
+def symbolic_while(I, st, env, module):
+    """`while <symbolic condition>`: cut at the loop head when the contract supplies an invariant for it
+    (contract.while_loops[<function qualname>] = inv(state, I, env) -> BoolRef; `True` for plain havoc).
+       init: invariant holds on entry;  step: modified variables havocked, invariant and condition assumed, body run
+       once, invariant re-established;  exit: havoc, invariant and negated condition assumed.
+    Termination is NOT proved (reported as an assumption of the contract)."""
+    from .interp import _Break, _Continue
+    fnq = env.lookup("__fn__").qualname if env.has("__fn__") else "?"
+    specs = getattr(I.ctx, "while_specs", {}) or {}
+    spec = specs.get(fnq)
+    if spec is None:
+        return False
+    label = f"winv@{fnq.split('.')[-1]}:{st.lineno}"
+    mod = sorted(_mutated_paths(st.body))
+
+    def state():
+        out = {}
+        for pth in mod:
+            try:
+                v = env.lookup(pth[0])
+                for a in pth[1:]:
+                    v = v.attrs[a] if isinstance(v, Obj) else None
+                if v is not None:
+                    out[".".join(pth)] = lower(v)
+            except (KeyError, V.LowerError, AttributeError):
+                pass
+        return out
+    I.p.oblige(f"{label}.init", spec(state(), I, env), "inv-init")
+    I.p.counter += 1
+    which = z3.Bool(f"while!{I.p.counter}!iteration")
+    if I.p.branch(which, f"while@{st.lineno}:arbitrary-iteration"):
+        for pth in mod:
+            _havoc(I, env, pth, "whilevar")
+        I.p.assume(spec(state(), I, env))
+        if not I.decide(I.eval(st.test, env, module), f"while@{st.lineno}:cond"):
+            raise PathAbort()
+        try:
+            I.exec_block(st.body, env, module)
+        except _Continue:
+            pass
+        except _Break:
+            return True
+        I.p.oblige(f"{label}.step", spec(state(), I, env), "inv-step")
+        raise PathAbort()
+    for pth in mod:
+        _havoc(I, env, pth, "whileout")
+    I.p.assume(spec(state(), I, env))
+    if I.decide(I.eval(st.test, env, module), f"while@{st.lineno}:exit"):
+        raise PathAbort()
+    I.exec_block(st.orelse, env, module)
+    return True
+
+
 def _target_names(t):
     if isinstance(t, ast.Name):
         return [t.id]
@@ -986,7 +1039,7 @@ def mlist_method(I, recv, name, args, kwargs):
         return None
     if name == "index":
         x = lower(args[0])
-        if not I.p.branch(V.vl_contains(V.vl(recv.t), x), "list.index-present"):
+        if not I.p.branch(V.vcontains(V.vl(recv.t), x), "list.index-present"):
             raise PyRaise(ValueError("x not in list"))
         return SV(V.VInt(V.vl_index(V.vl(recv.t), x)))
     if name == "copy":
@@ -997,7 +1050,7 @@ def mlist_method(I, recv, name, args, kwargs):
 def list_method_pure(I, t, name, args, kwargs):
     if name == "index":
         x = lower(args[0])
-        if not I.p.branch(V.vl_contains(V.vl(t), x), "list.index-present"):
+        if not I.p.branch(V.vcontains(V.vl(t), x), "list.index-present"):
             raise PyRaise(ValueError("x not in list"))
         return SV(V.VInt(V.vl_index(V.vl(t), x)))
     raise Unsupported(f"mutating list.{name} on a symbolic list value (value semantics)")
@@ -1075,6 +1128,11 @@ def call_native(I, fn, args, kwargs):
                 return r
     if isinstance(fn, type) and issubclass(fn, ast.AST):
         return make_ast_node(I, fn, args, kwargs)
+    if isinstance(fn, type) and issubclass(fn, _GQL_NODE) and not args:
+        # graphql-core AST node classes: plain records of their keyword arguments
+        if fn not in V.REG.by_cls:
+            V.REG.register(fn, [k for k in fn.keys if k != "loc"])
+        return Obj(fn, dict(kwargs))
     if isinstance(fn, type) and fn in CLASS_MODELS:
         return CLASS_MODELS[fn](I, args, kwargs)
     sym_args = deep_symbolic(args) or deep_symbolic(kwargs)
@@ -1122,6 +1180,11 @@ def make_ast_node(I, cls, args, kwargs):
     return Obj(cls, attrs)
 
 
+try:
+    from graphql.language.ast import Node as _GQL_NODE
+except ImportError:      # pragma: no cover
+    class _GQL_NODE:      # noqa
+        pass
 CLASS_MODELS = {}
 METHOD_MODELS = {}
 
